@@ -1,6 +1,9 @@
 """C12  Analytic integration returns the true integral of the model.
 
-Per case: one spectrum (model kind x parameters x source/bandpass x native flux unit), one call of
+The model classes are discovered at run time (synphot.models.__all__ and BaseSpectrum._model_param_dict);
+which of them have an analytic form is the Lean model's own table (driver op c12_table).
+
+Per case: one spectrum (model class x parameters x source/bandpass x native flux unit), one call of
 ``<spectrum>.integrate(wavelengths=x, integration_type=t, **keywords)`` under
 ``conf.default_integrator = c`` (set with ``conf.set_temp`` and checked to be restored); the keywords
 are drawn from everything the method accepts (``flux_unit`` absent / None / PHOTLAM / FLAM by name or
@@ -30,11 +33,24 @@ C = F(299792458) * 10 ** 10                # Angstrom / s
 KB = F(1380649, 10 ** 22)                  # erg / K
 JY = F(1, 10 ** 23)
 
+# kinds of the Lean model (`AModel`); which of them have an analytic form is the MODEL's table
+# (`AModel.hasIntegrate`, read through the driver op c12_table at the start of every run)
+KINDS = ['box', 'const', 'gauss', 'gaussflux', 'lorentz', 'ricker', 'powerlaw', 'trapezoid', 'blackbody', 'blackbodynorm',
+         'empirical', 'const1d', 'gaussabs', 'opaque', 'sum', 'redshift', 'scaled']
 ANALYTIC = ['box', 'const', 'gauss', 'gaussflux', 'lorentz', 'ricker', 'powerlaw', 'trapezoid',
             'blackbody', 'blackbodynorm']
-FALLBACK = ['empirical', 'const1d', 'sum', 'redshift']
+FALLBACK = ['empirical', 'const1d', 'gaussabs', 'opaque', 'sum', 'redshift', 'scaled']
+STRUCTURAL = ['sum', 'redshift', 'scaled']          # built from spectra, not from a model class
+# model class -> kind of the Lean model; a class that is not listed is the generic kind 'opaque'
+# ("no analytic form expected unless listed": its samples are data, its integration must be trapezoid)
+CLASS_KIND = {'BlackBody1D': 'blackbody', 'BlackBodyNorm1D': 'blackbodynorm', 'Box1D': 'box', 'ConstFlux1D': 'const',
+              'Empirical1D': 'empirical', 'ExtinctionModel1D': 'empirical', 'Gaussian1D': 'gauss',
+              'GaussianAbsorption1D': 'gaussabs', 'GaussianFlux1D': 'gaussflux', 'Lorentz1D': 'lorentz',
+              'MexicanHat1D': 'ricker', 'RickerWavelet1D': 'ricker', 'PowerLawFlux1D': 'powerlaw',
+              'Trapezoid1D': 'trapezoid', 'Const1D': 'const1d'}
 SOURCE_ONLY = {'const', 'gaussflux', 'powerlaw', 'blackbody', 'blackbodynorm', 'sum', 'redshift'}
 BANDPASS_ONLY = {'const1d'}
+BANDPASS_ONLY_CLASSES = {'ExtinctionModel1D', 'Const1D'}
 AMP_UNITS = ['photlam', 'flam', 'photnu', 'fnu', 'jy', 'mjy']
 JY_SCALE = {'jy': F(1), 'mjy': F(1, 1000)}
 LEVELS = [3126, 12501, 50001, 200001]      # three successive four-fold refinements (nested grids)
@@ -44,6 +60,45 @@ FCONV = {'box': 'x0', 'gauss': 'mean', 'gaussflux': 'mean', 'lorentz': 'x0', 'ri
 FU_CLASS = {'absent': 'absent', 'none_explicit': 'absent', 'photlam': 'photlam', 'PHOTLAM': 'photlam',
             'photlam_unit': 'photlam', 'flam': 'flam', 'FLAM': 'flam', 'flam_unit': 'flam', 'fnu': 'notwav',
             'jy_unit': 'notwav', 'count': 'notwav', 'angstrom_unit': 'notwav', 'foo': 'unparsable'}
+
+
+def load_table():
+    """the model's own table of analytic forms -> ANALYTIC / FALLBACK (in place)"""
+    t = core.run_model([{'op': 'c12_table'}])[0]['ok']
+    missing = [k for k in KINDS if k not in t]
+    if missing:
+        raise RuntimeError('Lean model has no kind(s) %s' % missing)
+    ANALYTIC[:] = [k for k in KINDS if t[k]]
+    FALLBACK[:] = [k for k in KINDS if not t[k]]
+    return t
+
+
+def resolve_class(name):
+    import synphot.models as sm
+    import synphot.reddening as sr
+    from astropy.modeling import models as am
+    for mod in (sm, sr, am):
+        o = getattr(mod, name, None)
+        if o is not None:
+            return o
+    return None
+
+
+def discover_classes():
+    """every model class a spectrum can be built on, read from the running package: the Model subclasses
+    exported by synphot.models.__all__ and the keys of BaseSpectrum._model_param_dict"""
+    import inspect
+    import synphot.models as sm
+    from astropy.modeling import Model
+    from synphot.spectrum import BaseSpectrum
+    names, unresolved = [], []
+    for n in list(sm.__all__) + list(BaseSpectrum._model_param_dict):
+        o = resolve_class(n)
+        if o is None:
+            unresolved.append(n)
+        elif inspect.isclass(o) and issubclass(o, Model) and n not in names:
+            names.append(n)
+    return sorted(names), unresolved
 
 
 def lat(rng, lo, hi, bits=4):
@@ -108,7 +163,8 @@ def build(desc, cls, z=None):
         def S(modelclass, **kw):
             return SourceSpectrum(modelclass, z=z, **kw)
     k = desc['kind']
-    p = {n: fl(v) for n, v in desc.items() if n not in ('kind', 'unit', 'pts', 'vals', 'a', 'b', 'm', 'form', 'given') and v is not None}
+    p = {n: fl(v) for n, v in desc.items() if n not in ('kind', 'unit', 'pts', 'vals', 'a', 'b', 'm', 'form', 'given', 'klass', 'params', 'xs', 'ys')
+         and v is not None}
     if k == 'box':
         return S(models.Box1D, amplitude=p['amp'], x_0=p['x0'], width=p['width'])
     if k == 'gauss':
@@ -122,7 +178,13 @@ def build(desc, cls, z=None):
     if k == 'lorentz':
         return S(models.Lorentz1D, amplitude=p['amp'], x_0=p['x0'], fwhm=p['fwhm'])
     if k == 'ricker':
-        return S(models.RickerWavelet1D, amplitude=p['amp'], x_0=p['x0'], sigma=p['sigma'])
+        return S(resolve_class(desc.get('klass', 'RickerWavelet1D')), amplitude=p['amp'], x_0=p['x0'], sigma=p['sigma'])
+    if k == 'gaussabs':
+        return S(models.GaussianAbsorption1D, amplitude=p['amp'], mean=p['mean'], stddev=p['stddev'])
+    if k == 'scaled':
+        return build(desc['m'], cls) * p['k']
+    if k == 'opaque':
+        return S(resolve_class(desc['klass']), **{n: fl(v) for n, v in desc['params'].items()})
     if k == 'trapezoid':
         return S(models.Trapezoid1D, amplitude=p['amp'], x_0=p['x0'], width=p['width'], slope=p['slope'])
     if k == 'const':
@@ -137,7 +199,8 @@ def build(desc, cls, z=None):
     if k == 'blackbodynorm':
         return S(models.BlackBodyNorm1D, temperature=p['temp'])
     if k == 'empirical':
-        return S(models.Empirical1D, points=[fl(v) for v in desc['pts']], lookup_table=[fl(v) for v in desc['vals']])
+        return S(resolve_class(desc.get('klass', 'Empirical1D')), points=[fl(v) for v in desc['pts']],
+                 lookup_table=[fl(v) for v in desc['vals']])
     if k == 'const1d':
         return S(Const1D, amplitude=p['amp'])
     if k == 'sum':
@@ -234,12 +297,12 @@ def impl_call(case):
 
 # ------------------------------------------------------------------ model lines
 def model_desc(desc):
-    d = {k: v for k, v in desc.items() if k not in ('form', 'given')}
+    d = {k: v for k, v in desc.items() if k not in ('form', 'given', 'klass', 'params')}
     if 'unit' in d:
         d['unit'] = {'jy': q(JY_SCALE[d['unit']])} if d['unit'] in JY_SCALE else d['unit']
     if d['kind'] == 'sum':
         d['a'], d['b'] = model_desc(d['a']), model_desc(d['b'])
-    if d['kind'] == 'redshift':
+    if d['kind'] in ('redshift', 'scaled'):
         d['m'] = model_desc(d['m'])
     return d
 
@@ -571,6 +634,13 @@ def gen_model(rng, kind, cls, lattice):
         return {'kind': 'empirical', 'pts': qs(pts), 'vals': qs(vals)}
     if kind == 'const1d':
         return {'kind': 'const1d', 'amp': q(lat(rng, 0, 2, 6))}
+    if kind == 'gaussabs':
+        mean = 10 ** rng.uniform(2.3, 5)
+        return {'kind': 'gaussabs', 'amp': q(rng.uniform(0, 1) if rng.random() < 0.8 else gen_amp(rng, src)), 'mean': q(mean),
+                'stddev': q(mean * 10 ** rng.uniform(-4.5, -1.4))}
+    if kind == 'scaled':
+        return {'kind': 'scaled', 'k': q(2.0 ** rng.randint(-6, 6) * rng.choice([1, 3, 5])),
+                'm': gen_model(rng, rng.choice(['box', 'gauss', 'lorentz', 'trapezoid']), cls, True)}
     if kind == 'redshift':
         # 1 + z a power of two: the rest-frame wavelength x/(1+z) is exact
         return {'kind': 'redshift', 'zp1': q(rng.choice([2.0, 4.0, 0.5, 0.25])),
@@ -678,11 +748,15 @@ def small_grid(rng, d):
         return sorted(pts)
     if k == 'redshift':
         return sorted({t * fl(d['zp1']) for t in small_grid(rng, d['m'])})
+    if k == 'scaled':
+        return small_grid(rng, d['m'])
+    if k == 'opaque':
+        return sorted({10 ** rng.uniform(2.5, 4.5) for _ in range(n)} | {1000.0, 9000.0})
     if k == 'sum':
         return sorted(set(small_grid(rng, d['a'])) | set(small_grid(rng, d['b'])))
     if k == 'const1d':
         return lattice_grid(rng, 100, 50000, n)
-    if k in ('gauss', 'gaussflux'):
+    if k in ('gauss', 'gaussflux', 'gaussabs'):
         c, s = fl(d['mean']), fl(d['stddev'])
     elif k == 'lorentz':
         c, s = fl(d['x0']), fl(d['fwhm'])
@@ -711,16 +785,47 @@ def finish_desc(case):
         pass
 
 
-def make_case(rng, kind, K, refine_p):
-    cls = 'source' if kind in SOURCE_ONLY else 'bandpass' if kind in BANDPASS_ONLY else rng.choice(['source', 'bandpass'])
+def gen_opaque(rng, klass):
+    """a model class the Lean model has no closed form for: built from its own parameter defaults"""
+    c = resolve_class(klass)
+    params = {}
+    for pn in c.param_names:
+        dflt = getattr(c, pn).default
+        v = 1.0 if dflt is None else float(dflt)
+        if pn == 'amplitude':
+            v *= 2.0 ** rng.randint(-3, 3)
+        elif pn.startswith('x_'):
+            v = lat(rng, 1000, 8000, 2)
+        params[pn] = q(v)
+    return {'kind': 'opaque', 'klass': klass, 'params': params, 'xs': [], 'ys': []}
+
+
+def fill_opaque(case):
+    """the samples of an opaque model at the requested wavelengths are data for the model"""
+    d = case['model']
+    if d['kind'] != 'opaque':
+        return True
+    sp = build(d, case['cls'])
+    r = guarded(lambda: sp(np.array([fl(v) for v in case['x']])).value)
+    if 'ok' in r:
+        d['xs'], d['ys'] = list(case['x']), qs(r['ok'])
+        return True
+    return bool(case.get('bad_wave'))
+
+
+def make_case(rng, kind, K, refine_p, klass=None):
+    cls = 'source' if kind in SOURCE_ONLY else 'bandpass' if (kind in BANDPASS_ONLY or klass in BANDPASS_ONLY_CLASSES) \
+        else rng.choice(['source', 'bandpass'])
     conf = rng.choice(['trapezoid', 'analytical'])
     r = rng.random()
     itype = 'analytical' if r < 0.55 else None if r < 0.75 else 'trapezoid' if r < 0.87 else \
         rng.choice(['simpson', 'Analytical', 'TRAPEZOID', '', 'analytic', 'trapz', 'romberg'])
     path, err = expected_path({'itype': itype, 'conf': conf, 'model': {'kind': kind}})
     analytic = path == 'analytical'
-    lattice = (not analytic) or kind in ('ricker', 'sum', 'empirical', 'const1d') or rng.random() < 0.3
-    d = gen_model(rng, kind, cls, lattice)
+    lattice = (not analytic) or kind in FALLBACK or kind == 'ricker' or rng.random() < 0.3
+    d = gen_opaque(rng, klass) if kind == 'opaque' else gen_model(rng, kind, cls, lattice)
+    if klass is not None:
+        d['klass'] = klass
     case = {'op': 'integrate', 'cls': cls, 'model': d, 'itype': itype, 'conf': conf, '_const': K}
     finish_desc(case)
     # keyword options of the call: everything integrate() accepts (flux_unit in every spelling, keywords it
@@ -769,12 +874,17 @@ def make_case(rng, kind, K, refine_p):
         case['bad_wave'] = True
         case.pop('grid', None)
         case.pop('twin', None)
+    if not fill_opaque(case):
+        return None
     return case
 
 
-def make_eval_case(rng, kind, K):
-    cls = 'source' if kind in SOURCE_ONLY else 'bandpass' if kind in BANDPASS_ONLY else rng.choice(['source', 'bandpass'])
-    d = gen_model(rng, kind, cls, kind in ('box', 'trapezoid', 'empirical', 'const1d', 'sum', 'ricker'))
+def make_eval_case(rng, kind, K, klass=None):
+    cls = 'source' if kind in SOURCE_ONLY else 'bandpass' if (kind in BANDPASS_ONLY or klass in BANDPASS_ONLY_CLASSES) \
+        else rng.choice(['source', 'bandpass'])
+    d = gen_model(rng, kind, cls, kind in ('box', 'trapezoid', 'ricker') or kind in FALLBACK)
+    if klass is not None:
+        d['klass'] = klass
     if kind == 'powerlaw' and d['unit'] not in ('photlam', 'flam') and rng.random() < 0.5:
         d['unit'] = rng.choice(['photlam', 'flam'])
     case = {'op': 'eval', 'cls': cls, 'model': d, '_const': K}
@@ -836,6 +946,7 @@ def tags(c, o):
         t.append('ampunit:' + c['model']['unit'])
     if c.get('grid'):
         t.append('refined')
+    t.append('class:' + c['model'].get('klass', c['model']['kind']))
     t.append('flux_unit:' + c.get('fu', 'absent'))
     t.append('extra_kw:' + str(c.get('xkw')))
     return t
@@ -849,8 +960,11 @@ def strip(rep):
     rep.samples = [{k: v for k, v in s.items() if k != '_const'} if isinstance(s, dict) else s for s in rep.samples]
 
 
-RULE = ('14 model kinds (10 with integrate(): box, constant, Gaussian, Gaussian-flux, Lorentzian, Ricker, power law, trapezoid, '
-        'black body, normalised black body; 4 without: Empirical1D, Const1D, a compound sum, a source with z != 0) x source/bandpass x amplitude '
+RULE = ('every model class of the running package (Model subclasses in synphot.models.__all__ and the keys of '
+        'BaseSpectrum._model_param_dict, 19 at present; classes without a closed form in the Lean model run as the generic kind '
+        '"opaque" whose samples are data) plus compound sum, redshifted source and scaled spectrum; which kinds have an analytic form '
+        'is read from the Lean model (10: box, constant, Gaussian, Gaussian-flux, Lorentzian, Ricker/MexicanHat, power law, trapezoid, '
+        'black body, normalised black body) x source/bandpass x amplitude '
         'unit (PHOTLAM, FLAM, PHOTNU, FNU, Jy, mJy, STmag, ABmag where the model takes one) x conf.default_integrator in '
         '{trapezoid, analytical} x integration_type in {analytical, None, trapezoid, 7 unknown names} x keyword options of the call (45% of the cases, 70% for the models without integrate(): flux_unit in {absent, None, photlam/PHOTLAM/units.PHOTLAM, flam/FLAM/units.FLAM, fnu, Jy, count, Angstrom, an unparsable name} x {no other keyword, area=, an unknown keyword}; the explicit-trapezoid twin of a fallback gets the same keywords); amplitudes 0 or '
         'log-uniform over 28 decades (sources) / 7 decades (bandpasses); centres log-uniform 200..1e5 A, widths 3e-5..0.4 of the '
@@ -878,32 +992,62 @@ def check_constants(rep):
             got, want, h, c, k), case, None)
 
 
+def targets(rep=None):
+    """(class name | None, kind) for every model class of the running package plus the structural kinds;
+    records what was found (and what has no case) in the evidence"""
+    names, unresolved = discover_classes()
+    tg = [(n, CLASS_KIND.get(n, 'opaque')) for n in names] + [(None, k) for k in STRUCTURAL]
+    if rep is not None:
+        rep.extra['model_classes'] = {n: {'kind': k, 'analytic_form_expected': k in ANALYTIC} for n, k in tg if n}
+        for n in unresolved:
+            rep.notes.append('model class %s is named by the package but cannot be resolved: no case' % n)
+        for n in CLASS_KIND:
+            if n not in names:
+                rep.notes.append('model class %s known to the harness is no longer offered by the package' % n)
+    return tg
+
+
 def run(rep):
     thorough = rep.tier == 'thorough'
     rng = rep.rng('c12')
     K = consts()
-    per_kind = 2900 if thorough else 115
-    per_fallback = 1500 if thorough else 60
-    per_eval = 500 if thorough else 25
+    load_table()
+    per_kind = 2600 if thorough else 100
+    per_fallback = 1100 if thorough else 50
+    per_eval = 400 if thorough else 20
     refine_p = 0.3 if thorough else 0.4
     cases = []
     for c in core.load_corpus('C12'):
         c.setdefault('_const', K)
         cases.append(c)
-    for kind in ANALYTIC:
-        n = per_kind * (2 if kind in ('powerlaw', 'const') else 1)
+    nocase = []
+    for klass, kind in targets(rep):
+        n = per_kind * (2 if kind in ('powerlaw', 'const') else 1) if kind in ANALYTIC else per_fallback
+        made = 0
         for _ in range(n):
-            cases.append(make_case(rng, kind, K, refine_p))
-    for kind in FALLBACK:
-        for _ in range(per_fallback):
-            cases.append(make_case(rng, kind, K, 0.0))
-    for kind in ANALYTIC + FALLBACK:
-        for _ in range(per_eval):
-            cases.append(make_eval_case(rng, kind, K))
+            try:
+                c = make_case(rng, kind, K, refine_p if kind in ANALYTIC else 0.0, klass)
+            except Exception as e:          # a class the generic builder cannot construct
+                c = None
+                err = '%s: %s' % (type(e).__name__, str(e)[:120])
+            if c is not None:
+                cases.append(c)
+                made += 1
+        if made == 0:
+            nocase.append(klass or kind)
+            rep.notes.append('NO CASE for model class %s (kind %s): %s' % (klass, kind, locals().get('err', 'samples not finite')))
+        if kind != 'opaque':
+            for _ in range(per_eval):
+                cases.append(make_eval_case(rng, kind, K, klass))
+    rep.extra['model_classes_without_case'] = nocase
     rep.rule = RULE
     check_constants(rep)
     core.run_cases(rep, cases, impl_call, model_case, oracle, tags_fn=tags, nontrivial_fn=nontrivial, compare_fn=compare)
     rep.extra['refinement_cases'] = rep.dist.get('refined', 0)
+    for n, info in rep.extra.get('model_classes', {}).items():
+        info['cases'] = rep.dist.get('class:' + n, 0)
+    for k in [k for k in rep.dist if k.startswith('class:')]:
+        del rep.dist[k]
     strip(rep)
 
 
@@ -911,26 +1055,31 @@ def search(rep, mismatches):
     sub = core.Report(rep.pid, 'thorough', rep.seed + 1)
     rng = sub.rng('c12-search')
     K = consts()
-    kinds = {m[2].get('model', {}).get('kind') for m in mismatches} & set(ANALYTIC + FALLBACK)
+    load_table()
+    hit = {(m[2].get('model', {}).get('klass'), m[2].get('model', {}).get('kind')) for m in mismatches}
     cases = []
-    for kind in sorted(kinds):
-        for _ in range(400):
-            c = make_case(rng, kind, K, 0.5)
-            if c['model']['kind'] in ANALYTIC and not c.get('bad_wave') and c['itype'] not in (None, 'analytical', 'trapezoid'):
+    for klass, kind in targets():
+        n = 400 if ((klass, kind) in hit or (None, kind) in hit) else 40
+        for _ in range(n):
+            try:
+                c = make_case(rng, kind, K, 0.5 if kind in ANALYTIC else 0.0, klass)
+            except Exception:
+                c = None
+            if c is None:
+                continue
+            if kind in ANALYTIC and not c.get('bad_wave') and c['itype'] not in (None, 'analytical', 'trapezoid'):
                 c['itype'] = 'analytical'
             cases.append(c)
-    for kind in ANALYTIC + FALLBACK:
-        for _ in range(60):
-            cases.append(make_case(rng, kind, K, 0.5))
     impl = core.pmap(impl_call, cases)
     for c, o in zip(cases, impl):
         oracle(sub, c, o)
-    rep.notes.append('directed search after mismatch: %d cases around kinds %s, %d oracle failures' % (
-        len(cases), sorted(kinds), len(sub.oracle_failures)))
+    rep.notes.append('directed search after mismatch: %d cases around %s, %d oracle failures' % (
+        len(cases), sorted(str(h) for h in hit), len(sub.oracle_failures)))
     return sub.oracle_failures
 
 
 def replay(rep, payload):
+    load_table()
     c = payload['case']
     c['_const'] = consts()
     core.run_cases(rep, [c], impl_call, model_case, oracle, compare_fn=compare)
